@@ -18,7 +18,9 @@ package main
 // and a panic (“send on closed channel”, …) is observed as the child's exit.
 // Two more families: "flood" (c04_atclose.go: what holds at the moment Close returns, with thousands of calls in
 // flight) and "xfer-loss" (c04_xferloss.go: the connection is lost in the middle of concurrent multi-chunk transfers
-// whose windows are full, and multi-chunk transfers are started on the dead connection).
+// whose windows are full, and multi-chunk transfers are started on the dead connection) and "transport-fail"
+// (c04_tfail.go: the transport's own methods misbehave — Close returning errors on the first / second / every call,
+// Write failing or short, Read handing out data together with the terminal error — crossed with the moment of Close).
 
 import (
 	"encoding/json"
@@ -81,6 +83,10 @@ type c04Case struct {
 	AfterPar  int       `json:"after_par,omitempty"` // callers that run those transfers at the same time, each on a File of its own (0: one)
 	After     int       `json:"after,omitempty"`     // multi-chunk transfers started after the loss, per trial (at least one of each kind)
 	Opt       string    `json:"opt,omitempty"`       // option variant (cli_ops.go: which MaxPacket constructor, UseFstat, UseConcurrentReads/Writes, MaxConcurrentRequestsPerFile); "" = MaxPacketUnchecked + the operation's own options
+	// Op "transport-fail" (c04_tfail.go): the methods of the transport fail as TF says (Close returning errors, Write failing
+	// or short, Read handing out data with the terminal error) at the moment Fault (= TF.Moment) with At calls in flight;
+	// Err the Read error value, Tail the bytes that come with it; GOMAXPROCS Procs, Trials independent trials.
+	TF *c04TF `json:"tf,omitempty"`
 }
 
 type c04Call struct {
@@ -106,6 +112,7 @@ type c04Res struct {
 	Conn     *connLine `json:"conn,omitempty"`       // the recorded schedule as conn.run tokens + observed outcomes
 	Trials   int       `json:"trials_run,omitempty"` // xfer-loss: trials that fitted into the case's time allowance
 	Fails    []c20Fail `json:"fails,omitempty"`
+	TFObs    *tfObs    `json:"transport_fail_observed,omitempty"` // transport-fail: what the transport did, over the trials
 	ExitNow  bool      `json:"-"`
 }
 
@@ -132,6 +139,10 @@ func c04Child(idx int, raw json.RawMessage) (any, bool) {
 	}
 	if cs.Op == c04XferOp {
 		res := c04RunXferLoss(cs)
+		return res, res.ExitNow
+	}
+	if cs.Op == c04TFOp {
+		res := c04RunTransportFail(cs)
 		return res, res.ExitNow
 	}
 	res := c04Run(cs, true)
@@ -780,7 +791,7 @@ func c04Run(cs c04Case, checkGoroutines bool) (res c04Res) {
 func checkC04(c *lib.Ctx) {
 	r := c.R
 	thorough := c.Tier == "thorough"
-	r.Rule = "scenario = [open] + one operation + [File.Close] on a real Client against a fake server, with 0…8 racing goroutines that keep starting Stat/Lstat/ReadLink/RealPath/Mkdir on the same Client. Operations: cmd/vh/cli_ops.go (single calls; ReadDir; single-chunk, sequential and concurrent multi-chunk ReadAt/WriteTo/WriteAt/Write/ReadFrom incl. readers with Len/Size/Stat/*io.LimitedReader and ReadFromWithConcurrency 0/2/1000; ReadDir/ReadDirContext over several READDIR batches, Walk, Glob, RemoveAll and MkdirAll over a two-level tree). Option variants: every operation under MaxPacketUnchecked (default), MaxPacketChecked, the MaxPacket alias and UseFstat(true); the transfers also under their own variants (UseFstat on/off, UseConcurrentReads false/true, UseConcurrentWrites true/false, MaxConcurrentRequestsPerFile 1/2 and combinations: the table Vars in cli_ops.go) — quick: default variant at full density, own variants at frame boundaries −1/0/+1, universal variants at frame boundaries; thorough: default and own variants at every byte offset, universal variants at the quick density; the fault-free run of every variant must return the same results as the default one. Family ssh: the same scenarios on a Client made by sftp.NewClient over an in-process x/crypto/ssh connection (loopback TCP; session stdin as writer, stderr copier with and without CopyStderrTo, Wait asking the session): the server sends exit-status 0 / 3 / none and closes the channel after N reply bytes, the TCP connection is dropped after N reply bytes, or the channel is closed after k requests; 9 operations (thorough: all). Faults: reply stream ended by EOF (cut) or by a Read error (err) after N bytes — thorough: every N in 0…len(stream); quick: every frame boundary −1/0/+1 and PRNG offsets —; client→server stream closed by the peer after k requests (failinput), every k; the client's k-th Write call and every later one fail while the reply stream stays alive (failwrite), every k (header and payload writes are separate calls). ERROR VALUES of the failing Read/Write: the table cliErrKinds (opaque sentinel and type, io.EOF, %w-wrapped / doubly wrapped / *net.OpError-wrapped / Is-method / errors.Join'ed EOF, io.ErrUnexpectedEOF plain and wrapped, io.ErrClosedPipe, os.ErrClosed in *os.PathError, net.ErrClosed, os.ErrDeadlineExceeded plain and in *net.OpError, EPIPE / ECONNRESET in *net.OpError, bare EPIPE): failinput and failwrite × every k × every value (quick, single-request operations: one value per family + 2 rotating); err × every offset × one rotating value plus every value at 4 offsets (thorough: every offset × every value). READ BEHAVIOUR of the transport at the moment of failure (pipes; cli_faultpeer.go faultReader): the terminal error comes from a Read call of its own (all of the above), or TOGETHER WITH THE LAST BYTES in one Read call (n > 0 and io.EOF resp. the error value, as io.Reader allows): at every reply boundary — the reply that ends there has been received completely, its caller gets it — with 1, 2, 3, 5 bytes, the body, the frame less one byte, or the whole frame including its length word arriving with the error (quick, default variant: EOF × 3 lengths, error × 3 lengths × rotating values, every value at one PRNG boundary × 2 lengths; other variants: one or two rotating; thorough: every boundary × every value × {1, body, frame}, every offset × 3), and one byte before / one and five bytes after every boundary (a partial frame whose last bytes come with the error). With racers: PRNG offsets, values and seeds (one in three with the last 1…9 bytes in the same Read as the error). Oracles: a call with a request whose reply was not delivered completely, or that could not be written, returns a non-nil error (never a truncated success; Glob, which documents that it swallows I/O errors, exempt); a call whose replies were all delivered returns the result of the fault-free run; Stat, ReadDir, File.ReadAt, File.WriteAt started after the fault fail; nothing hangs (20 s); Wait and Close return; the goroutine table is polled ≤ 5 s for goroutines created by pkg/sftp. Family flood (c04_atclose.go) — what holds AT THE MOMENT Client.Close RETURNS: N single-request calls (Stat/Lstat/ReadLink/RealPath/Mkdir) in flight on N goroutines (quick: 300, 2000, 20000; thorough: 100 … 5000, 8000, 20000), none answered, two goroutines in Client.Wait, 0…8 racers whose calls are answered; the connection ends by Client.Close (the peer ends its output when its input ends), or by the peer ending the reply stream (EOF / a Read error value of the table) with Client.Close called within 0…120 µs of it, either order; under GOMAXPROCS 1, 2, 4, 8 (thorough: also 3, 16); 2…40 independent trials per case. Right after Close has returned one goroutine dump (stop-the-world: a consistent picture) is taken: no goroutine started by pkg/sftp may still execute package code (one that has only its entry function left is exiting), nobody may still be parked in Wait, no call may still be parked waiting for its result; then, without any further event, Wait and every outstanding call return (the calls with an error), a later call fails, the goroutine table is free of pkg/sftp. Family xfer-loss (c04_xferloss.go) — the connection is lost in the MIDDLE of concurrent multi-chunk transfers: 1…3 transfers in parallel on one Client, each on its own File (File.ReadFrom with concurrent writes fed by readers with Len / Size / a negative Size, File.ReadFromWithConcurrency with argument 0 / window / 1000 / half the window, File.WriteTo, File.ReadAt, File.Read, File.WriteAt, File.Write; 5…307 chunks; MaxConcurrentRequestsPerFile default, 2, 3, 16, 128; option variants mp-checked, mp-alias, fstat); the peer answers the first 0…k requests of each and then keeps quiet until 2…128 requests of EACH transfer are on the wire unanswered (their workers parked); then optionally a burst — 2…window of the unanswered requests answered in ONE write with error statuses, valid replies or both alternating — and 0…150 µs later the connection ends: reply stream EOF, a Read error value of the table, the request stream failed by the peer with a Write error value, Client.Close called with the transfers in flight, or the end of the reply stream and Client.Close within 0…120 µs of each other in either order; 0…2 racers with answered calls; under GOMAXPROCS 2, 4, 8 (1 as control; thorough also 3, 16). After the loss, 9…64 multi-chunk transfers of every kind (2…130 chunks) are STARTED on the dead connection by 1…8 callers at the same time, each on a File of its own (every chunk fails at once; several workers of one transfer handle errors at the same moment). A case is as many independent trials (fresh Client; 1, 2, 4 or 8 trials at a time in the process) as fit into its time allowance (quick 350 ms, thorough 2 s; stops at the first failing trial), in a child process, a few cases at a time with nothing else running beside them (two workers of one transfer must really run at the same moment); a panic in a package goroutine is the death of the child, reported as “call did not return an error: process crashed” with the panic text and its site. Oracles: every transfer returns (20 s, hang budget) with a non-nil error other than io.EOF unless every one of its chunks had been answered successfully; Stat and every transfer started after the loss return, with an error; File.Close, Client.Wait, Client.Close return; the goroutine table is free of pkg/sftp after every round. Non-trivial = fault injected; distinct by (operation, fault, offset, error value, racers, seed, GOMAXPROCS; xfer-loss: transfers, window, answered-before, burst)."
+	r.Rule = "scenario = [open] + one operation + [File.Close] on a real Client against a fake server, with 0…8 racing goroutines that keep starting Stat/Lstat/ReadLink/RealPath/Mkdir on the same Client. Operations: cmd/vh/cli_ops.go (single calls; ReadDir; single-chunk, sequential and concurrent multi-chunk ReadAt/WriteTo/WriteAt/Write/ReadFrom incl. readers with Len/Size/Stat/*io.LimitedReader and ReadFromWithConcurrency 0/2/1000; ReadDir/ReadDirContext over several READDIR batches, Walk, Glob, RemoveAll and MkdirAll over a two-level tree). Option variants: every operation under MaxPacketUnchecked (default), MaxPacketChecked, the MaxPacket alias and UseFstat(true); the transfers also under their own variants (UseFstat on/off, UseConcurrentReads false/true, UseConcurrentWrites true/false, MaxConcurrentRequestsPerFile 1/2 and combinations: the table Vars in cli_ops.go) — quick: default variant at full density, own variants at frame boundaries −1/0/+1, universal variants at frame boundaries; thorough: default and own variants at every byte offset, universal variants at the quick density; the fault-free run of every variant must return the same results as the default one. Family ssh: the same scenarios on a Client made by sftp.NewClient over an in-process x/crypto/ssh connection (loopback TCP; session stdin as writer, stderr copier with and without CopyStderrTo, Wait asking the session): the server sends exit-status 0 / 3 / none and closes the channel after N reply bytes, the TCP connection is dropped after N reply bytes, or the channel is closed after k requests; 9 operations (thorough: all). Faults: reply stream ended by EOF (cut) or by a Read error (err) after N bytes — thorough: every N in 0…len(stream); quick: every frame boundary −1/0/+1 and PRNG offsets —; client→server stream closed by the peer after k requests (failinput), every k; the client's k-th Write call and every later one fail while the reply stream stays alive (failwrite), every k (header and payload writes are separate calls). ERROR VALUES of the failing Read/Write: the table cliErrKinds (opaque sentinel and type, io.EOF, %w-wrapped / doubly wrapped / *net.OpError-wrapped / Is-method / errors.Join'ed EOF, io.ErrUnexpectedEOF plain and wrapped, io.ErrClosedPipe, os.ErrClosed in *os.PathError, net.ErrClosed, os.ErrDeadlineExceeded plain and in *net.OpError, EPIPE / ECONNRESET in *net.OpError, bare EPIPE): failinput and failwrite × every k × every value (quick, single-request operations: one value per family + 2 rotating); err × every offset × one rotating value plus every value at 4 offsets (thorough: every offset × every value). READ BEHAVIOUR of the transport at the moment of failure (pipes; cli_faultpeer.go faultReader): the terminal error comes from a Read call of its own (all of the above), or TOGETHER WITH THE LAST BYTES in one Read call (n > 0 and io.EOF resp. the error value, as io.Reader allows): at every reply boundary — the reply that ends there has been received completely, its caller gets it — with 1, 2, 3, 5 bytes, the body, the frame less one byte, or the whole frame including its length word arriving with the error (quick, default variant: EOF × 3 lengths, error × 3 lengths × rotating values, every value at one PRNG boundary × 2 lengths; other variants: one or two rotating; thorough: every boundary × every value × {1, body, frame}, every offset × 3), and one byte before / one and five bytes after every boundary (a partial frame whose last bytes come with the error). With racers: PRNG offsets, values and seeds (one in three with the last 1…9 bytes in the same Read as the error). Oracles: a call with a request whose reply was not delivered completely, or that could not be written, returns a non-nil error (never a truncated success; Glob, which documents that it swallows I/O errors, exempt); a call whose replies were all delivered returns the result of the fault-free run; Stat, ReadDir, File.ReadAt, File.WriteAt started after the fault fail; nothing hangs (20 s); Wait and Close return; the goroutine table is polled ≤ 5 s for goroutines created by pkg/sftp. Family flood (c04_atclose.go) — what holds AT THE MOMENT Client.Close RETURNS: N single-request calls (Stat/Lstat/ReadLink/RealPath/Mkdir) in flight on N goroutines (quick: 300, 2000, 20000; thorough: 100 … 5000, 8000, 20000), none answered, two goroutines in Client.Wait, 0…8 racers whose calls are answered; the connection ends by Client.Close (the peer ends its output when its input ends), or by the peer ending the reply stream (EOF / a Read error value of the table) with Client.Close called within 0…120 µs of it, either order; under GOMAXPROCS 1, 2, 4, 8 (thorough: also 3, 16); 2…40 independent trials per case. Right after Close has returned one goroutine dump (stop-the-world: a consistent picture) is taken: no goroutine started by pkg/sftp may still execute package code (one that has only its entry function left is exiting), nobody may still be parked in Wait, no call may still be parked waiting for its result; then, without any further event, Wait and every outstanding call return (the calls with an error), a later call fails, the goroutine table is free of pkg/sftp. Family xfer-loss (c04_xferloss.go) — the connection is lost in the MIDDLE of concurrent multi-chunk transfers: 1…3 transfers in parallel on one Client, each on its own File (File.ReadFrom with concurrent writes fed by readers with Len / Size / a negative Size, File.ReadFromWithConcurrency with argument 0 / window / 1000 / half the window, File.WriteTo, File.ReadAt, File.Read, File.WriteAt, File.Write; 5…307 chunks; MaxConcurrentRequestsPerFile default, 2, 3, 16, 128; option variants mp-checked, mp-alias, fstat); the peer answers the first 0…k requests of each and then keeps quiet until 2…128 requests of EACH transfer are on the wire unanswered (their workers parked); then optionally a burst — 2…window of the unanswered requests answered in ONE write with error statuses, valid replies or both alternating — and 0…150 µs later the connection ends: reply stream EOF, a Read error value of the table, the request stream failed by the peer with a Write error value, Client.Close called with the transfers in flight, or the end of the reply stream and Client.Close within 0…120 µs of each other in either order; 0…2 racers with answered calls; under GOMAXPROCS 2, 4, 8 (1 as control; thorough also 3, 16). After the loss, 9…64 multi-chunk transfers of every kind (2…130 chunks) are STARTED on the dead connection by 1…8 callers at the same time, each on a File of its own (every chunk fails at once; several workers of one transfer handle errors at the same moment). A case is as many independent trials (fresh Client; 1, 2, 4 or 8 trials at a time in the process) as fit into its time allowance (quick 350 ms, thorough 2 s; stops at the first failing trial), in a child process, a few cases at a time with nothing else running beside them (two workers of one transfer must really run at the same moment); a panic in a package goroutine is the death of the child, reported as “call did not return an error: process crashed” with the panic text and its site. Oracles: every transfer returns (20 s, hang budget) with a non-nil error other than io.EOF unless every one of its chunks had been answered successfully; Stat and every transfer started after the loss return, with an error; File.Close, Client.Wait, Client.Close return; the goroutine table is free of pkg/sftp after every round. Family transport-fail (c04_tfail.go) — TRANSPORTS WHOSE METHODS FAIL, crossed with the moment of Client.Close: the WriteCloser's Close tears the link down and returns nil / an error on the first call / on every call but the first / on every call / iff the read side has already reported its end / the error of an earlier failed Write (values of the table); the read side is then ended by the peer 0, 1.5 or 25 ms after its input ended (thorough also 0.2, 8 ms) or by Close itself (one Close for both directions: the pending Read fails at once with an error value); the reply stream ends with EOF, an error value, or with the reply to one call in flight whose last 1 … all bytes come in the SAME Read as the terminal error (complete: that call returns its reply; one byte short: it fails like the others); Write is healthy, or the k-th Write call fails with (0, err) or as a short write (0 < n < len, err) and every later one fails; moments: Client.Close with 0 (idle) … 300 calls in flight on a healthy link, the peer ending the reply stream and Client.Close 0…120 µs apart in either order, Client.Close the instant the first of 300 … 2500 calls in flight was notified (the receiver in the middle of its broadcast; the transport's Close is called for the second time), Client.Close after Client.Wait has returned; 0, 1 or 3 calls answered before; GOMAXPROCS 1, 2, 4, 8; quick: the cross product moment × Close behaviour × end of the read side × Read at the end, the other dimensions rotating, 2–3 trials each; thorough: × Write × calls in flight, 4–6 trials. Oracles as in family flood, at the moment Close returns (one goroutine dump): no goroutine started by pkg/sftp executes package code, nobody is parked in Wait, no call is parked waiting for its result; then Wait returns, every call in flight returns — with an error, except the one whose reply was completed by the bytes that came with the error —, a later Stat fails, a second Client.Close returns, the goroutine table is free of pkg/sftp (all waits through the hang budget). Non-trivial = fault injected; distinct by (operation, fault, offset, error value, racers, seed, GOMAXPROCS; xfer-loss: transfers, window, answered-before, burst; transport-fail: the transport's behaviour)."
 	workers := runtime.NumCPU()
 	if workers > 16 {
 		workers = 16
@@ -846,12 +857,17 @@ func checkC04(c *lib.Ctx) {
 		if one.Op == c04XferOp {
 			one.Trials, one.BudgetMs = 20*max(one.Trials, 1), 20*one.BudgetMs // (a trial is cheap, the window between two woken workers narrow)
 		}
+		if one.Op == c04TFOp {
+			one.Trials = 10 * max(one.Trials, 1) // where the failing interleaving is a schedule, a replay tries harder
+		}
 		cases = []c04Case{one}
 	} else {
 		// family "flood": what holds at the moment Close returns (c04_atclose.go); first, so that they overlap
 		cases = append(cases, c04GenAtClose(rand.New(rand.NewSource(int64(c.Seed)^0x61746373)), thorough, rkinds)...)
 		// family "xfer-loss": the connection is lost in the middle of concurrent multi-chunk transfers (c04_xferloss.go)
 		cases = append(cases, c04GenXferLoss(rand.New(rand.NewSource(int64(c.Seed)^0x78666c73)), thorough, rkinds, wkinds)...)
+		// family "transport-fail": the transport's Close / Write / Read misbehave, crossed with the moment of Close (c04_tfail.go)
+		cases = append(cases, c04GenTransportFail(rand.New(rand.NewSource(int64(c.Seed)^0x7466616c)), thorough, rkinds, wkinds)...)
 		var dryRaw []json.RawMessage
 		for _, p := range pairs {
 			b, _ := json.Marshal(c04Case{Op: p.op.Name, Fault: "none", Opt: p.variant})
@@ -1155,7 +1171,7 @@ func checkC04(c *lib.Ctx) {
 		// debugging aid: only the flood family ("flood"), only the xfer-loss family ("xfer") or everything else ("noflood")
 		var keep []c04Case
 		for _, cs := range cases {
-			of := map[string]string{c04FloodOp: "flood", c04XferOp: "xfer"}[cs.Op]
+			of := map[string]string{c04FloodOp: "flood", c04XferOp: "xfer", c04TFOp: "tfail"}[cs.Op]
 			if of == "" {
 				of = "noflood"
 			}
@@ -1255,7 +1271,25 @@ func checkC04(c *lib.Ctx) {
 		if cs.Op == c04XferOp {
 			ctext += fmt.Sprintf("/%v/q%d/a%d/b%d%s", cs.Xfers, cs.Req, cs.Answer, cs.Burst, cs.BurstKind)
 		}
+		if cs.Op == c04TFOp {
+			ctext += fmt.Sprintf("/%+v", *cs.TF)
+		}
 		r.Case(ctext, cs.Fault != "none")
+		if cs.Op == c04TFOp {
+			tf := cs.TF
+			r.Hist("transport-fail/moment/" + tf.Moment)
+			r.Hist("transport-fail/Close-returns-an-error/" + tf.CloseErr)
+			r.Hist("transport-fail/read-side-ended-by/" + tf.Ends + map[bool]string{true: fmt.Sprintf("/%dus-after-its-input-ended", tf.DelayUs), false: ""}[tf.Ends == "peer" && tf.Moment == "close"])
+			r.Hist("transport-fail/Read-at-the-end/" + tf.Read)
+			r.Hist("transport-fail/Write/" + map[bool]string{true: "ok", false: tf.Write}[tf.Write == ""])
+			r.Hist(fmt.Sprintf("transport-fail/calls-in-flight/%d", cs.At))
+			r.Hist(fmt.Sprintf("transport-fail/gomaxprocs/%d", cs.Procs))
+			r.Hist(fmt.Sprintf("transport-fail/calls-answered-before/%d", tf.Answered))
+			r.Hist("transport-fail/moment×Close/" + tf.Moment + "/" + tf.CloseErr)
+			if tf.CloseErrV != "" {
+				r.Hist("error-value/transport-Close/" + tf.CloseErrV)
+			}
+		}
 		if cs.Op == c04XferOp {
 			for _, x := range cs.Xfers {
 				r.Hist("xfer-loss/api/" + x.API)
@@ -1357,6 +1391,14 @@ func checkC04(c *lib.Ctx) {
 			}
 		}
 		r.Hist(fmt.Sprintf("in-flight-at-loss/%d", min(res.InFlight, 9)))
+		if o := res.TFObs; o != nil {
+			yn := func(n int) string { return map[bool]string{true: "yes", false: "no"}[n > 0] }
+			r.Hist("transport-fail/observed/a-Close-call-had-returned-an-error-when-Client.Close-returned/" + yn(o.CloseErrAtReturn))
+			r.Hist("transport-fail/observed/Client.Close-was-the-transport's-second-Close-call/" + yn(o.SecondClose))
+			r.Hist("transport-fail/observed/a-Write-call-failed/" + yn(o.WritesFailed))
+			r.Hist("transport-fail/observed/a-reply-was-completed-by-bytes-that-came-with-the-terminal-error/" + yn(o.WholeWithErr))
+			r.Hist("transport-fail/observed/the-read-side-had-ended-when-Client.Close-was-called/" + yn(o.ReadEndedBefore))
+		}
 		if cs.Op == c04XferOp {
 			b := "2-7"
 			for _, lim := range []int{8, 16, 32, 64, 128, 256} {
